@@ -14,8 +14,8 @@ META = {
     "engine": "A (exhaustive input enumeration)",
     "rule": "a case = one ordered generating set of one stabilizer state (or one labelled graph); non-trivial = the state is "
             "entangled or has a negative generator; distinct = distinct generating sets / graphs",
-    "bounds": {"quick": "all presentations of all states n<=3 (6 + 360 + 181440); all 36720 states n=4 in two presentations (reduced and deliberately unreduced); all graphs n<=5",
-               "thorough": "+ all 36720 states n=4 in canonical presentation with every single row addition; all graphs n<=6"},
+    "bounds": {"quick": "all presentations of all states n<=3 (6 + 360 + 181440); all 36720 states n=4 in two presentations (reduced and deliberately unreduced); n=5: all 32768 symmetric Gamma x Hadamard subsets {3,5,12,30} (inverse circuit only); all graphs n<=5",
+               "thorough": "+ all 36720 states n=4 in canonical presentation with every single row addition; n=5: all 32768 Gamma x all 32 Hadamard subsets x 2 sign patterns = every 5-qubit stabilizer state up to signs, full check; all graphs n<=6"},
     "assumptions": ["R1 gate table for H,P,P_dag,X,Y,Z,CNOT,CZ"],
 }
 CHUNK = 15
@@ -35,6 +35,12 @@ def shards(tier):
             out.append({"kind": "graphs", "n": n, "lo": a, "hi": min(ng, a + step)})
     for a in range(0, 36720, 720):
         out.append({"kind": "s4", "lo": a, "hi": a + 720, "additions": tier == "thorough"})
+    # 5 qubits: every stabilizer state is H_A (I | Gamma) for a symmetric binary Gamma (graph with loops = phase gates) and a subset A of qubits,
+    # so (Gamma, A) enumerates all 75 735 states up to signs (with repetitions)
+    subsets = (3, 5, 12, 30) if tier == "quick" else tuple(range(32))
+    for A in subsets:
+        for a in range(0, 1 << 15, 1 << 12):
+            out.append({"kind": "lag5", "A": A, "lo": a, "hi": a + (1 << 12), "light": tier == "quick"})
     return out
 
 
@@ -57,7 +63,28 @@ def apply_list(v, circ, reverse=False):
     return v
 
 
-def check_presentation(acc, grp, case, with_vector=True):
+def lagrangian(n, mask, A, minus=0):
+    """H_A applied to the state with generators X_q Z^{Gamma_q} (Gamma symmetric incl. diagonal, bit order: (i,j) i<=j row-major); sign - on generators in minus."""
+    pairs = [(i, j) for i in range(n) for j in range(i, n)]
+    adj = [0] * n
+    for b, (i, j) in enumerate(pairs):
+        if (mask >> b) & 1:
+            adj[i] |= 1 << j
+            adj[j] |= 1 << i
+    gens = []
+    for q in range(n):
+        ph = 1 if (adj[q] >> q) & 1 else 0
+        if (minus >> q) & 1:
+            ph = (ph + 2) & 3
+        gens.append((1 << q, adj[q], ph))
+    g = P.StabGroup(n, gens)
+    for q in range(n):
+        if (A >> q) & 1:
+            g.apply("H", q)
+    return g
+
+
+def check_presentation(acc, grp, case, with_vector=True, light=False):
     from graphiq.backends.stabilizer.functions.stabilizer import inverse_circuit
     from graphiq.backends.stabilizer.functions.transformation import run_circuit
     from graphiq.backends.stabilizer.functions.rep_conversion import clifford_from_stabilizer
@@ -93,6 +120,10 @@ def check_presentation(acc, grp, case, with_vector=True):
             g2.apply({"P": "P"}.get(g[0], g[0]), *g[1:])
         if not g2.same_state(P.StabGroup.zero(n)):
             acc.violation("inverse", "inverse_circuit", "circuit-does-not-map-state-to-zero", case, "+Z_i", g2.strings())
+    if light:
+        acc.validated += 1
+        acc.nontriv_fast(tuple(grp.gens))
+        return
     # reverse execution on a real Clifford tableau
     try:
         ct = run_circuit(CliffordTableau(n), list(circ), reverse=True)
@@ -145,6 +176,12 @@ def run_shard(shard, tier, acc):
                 gens[i] = P.mul(gens[i], gens[j])
                 g2 = P.StabGroup(4, gens)
                 check_presentation(acc, g2, {"n": 4, "gens": g2.strings()}, with_vector=False)
+    elif kind == "lag5":
+        for mask in range(shard["lo"], shard["hi"]):
+            for minus in ((0,) if shard["light"] else (0, 0b10110)):
+                grp = lagrangian(5, mask, shard["A"], minus)
+                check_presentation(acc, grp, {"n": 5, "gens": grp.strings()}, with_vector=False, light=shard["light"])
+        acc.sample({"n": 5, "gens": grp.strings()})
     elif kind == "graphs":
         from graphiq.backends.stabilizer.functions.rep_conversion import get_clifford_tableau_from_graph
         n = shard["n"]
